@@ -94,8 +94,8 @@ pub fn matrix(rng: &mut Rng, class: &str, n: usize) -> Vec<f64> {
             euclid(&pts)
         }
         "ratioblobs" => {
-            // tight groups far apart: within-group entries ~1e-150, between-group entries ~1e150 (all distinct,
-            // clearly separated; squares 1e-300 / 1e300 are still normal).  `to_bits` maps them to 1e-6 / 1e17
+            // tight groups far apart: within-group entries ~1e-140, between-group entries ~1e140 (all distinct,
+            // clearly separated; squares 1e-280 / 1e280 and their size-weighted sums stay in range).  `to_bits` maps them to 1e-10 / 1e13
             // for f32.  An extreme magnitude RATIO inside one matrix: anything that rescales by the largest
             // entry, or mixes magnitudes in one sum, loses the small entries.
             let g = rng.range(2, 4).min(n.max(1));
@@ -106,7 +106,7 @@ pub fn matrix(rng: &mut Rng, class: &str, n: usize) -> Vec<f64> {
                 for j in i + 1..n {
                     c += 1;
                     let jitter = 1.0 + (c as f64) * 0.9 / (len as f64 + 1.0) + rng.unit() * 0.001;
-                    v.push(if grp[i] == grp[j] { jitter * 1e-150 } else { jitter * 1e150 });
+                    v.push(if grp[i] == grp[j] { jitter * 1e-140 } else { jitter * 1e140 });
                 }
             }
             v
@@ -284,7 +284,10 @@ pub fn to_bits(class: &str, w32: bool, vals: &[f64]) -> Vec<u64> {
         return vals.iter().map(|&x| f64_to_bits(true, x * f)).collect();
     }
     if w32 && class == "ratioblobs" {
-        return vals.iter().map(|&x| f64_to_bits(true, if x < 1.0 { x * 1e144 } else { x * 1e-133 })).collect();
+        // f32: 1e-10 / 1e13 — the squares (1e-20 / 1e26) AND the size-weighted sums of up to n^2 of them stay
+        // inside the range (at 1e17 Ward's sums overflow from n ~ 200 on: inf - inf = NaN, generic spins; outside
+        // the safe magnitude range of C12, as for the `magnitude` class)
+        return vals.iter().map(|&x| f64_to_bits(true, if x < 1.0 { x * 1e130 } else { x * 1e-127 })).collect();
     }
     if w32 && class == "geomline" {
         // keep squares finite in f32: rescale so that the largest distance is <= 1e15
